@@ -114,6 +114,11 @@ def gen_scenario(rng, idx, n_ops=None, with_save=False, opts=True, cross_prob=0.
             ops.append({"op": "state"})
         elif r < 0.27 and with_save:
             ops.append({"op": "save"})
+        elif r < 0.31 and with_save:
+            # the user renames an instance (covergroup.set_name), possibly after reports were already produced, possibly to
+            # a name another instance carries
+            i = rng.randrange(len(insts))
+            ops.append({"op": "rename", "inst": i, "name": rng.choice(["front", "rear", "u_%d" % rng.randrange(3), insts[i][0]])})
         else:
             i = rng.randrange(len(insts))
             tn, sh = insts[i]
@@ -239,7 +244,9 @@ class Impl:
             st = self.read_model(m)
             st["facade_cov"] = cg.get_coverage()
             st["facade_inst_cov"] = cg.get_inst_coverage()
-            out["insts"].append({"tidx": tidx, "st": st})
+            # the name the instance holds in memory (CovergroupModel.instname when given, else .name) and the raw attributes
+            out["insts"].append({"tidx": tidx, "st": st, "name": m.instname if m.instname is not None else m.name,
+                                 "raw_names": [m.name, m.instname]})
         return out
 
     # ---- reports ------------------------------------------------------------------------
@@ -287,6 +294,9 @@ def run_impl(vsc, scn):
                     outs.append(im.new(o))
                 elif k == "sample":
                     outs.append(im.sample(o))
+                elif k == "rename":
+                    im.insts[o["inst"]][0].set_name(o["name"])
+                    outs.append(None)
                 elif k == "state":
                     outs.append(im.state())
                 elif k == "save":
